@@ -7,7 +7,7 @@ ALL = ["C%02d" % i for i in range(1, 20)]
 CHECKS = {
  "C01": ("bounded-exhaustive input-space exploration of the real BooleanOpPaths64 against an exact winding-number reference model",
          "Every closed (subject, clip) input of the stated scopes (all vertex sequences on small lattices under 4-5 embeddings) x 16 (clip type, fill rule) is executed on the implementation and compared, witness by witness, with an independent exact winding oracle; complete enumeration, no sampling. Right level: the property quantifies over all inputs and the failure modes (ties, rounding, self-intersection repair) are combinatorial in small vertex configurations.",
-         "small-scope hypothesis (<=6 vertices/path, <=3 paths, 5 embeddings); witness lattice pitch 1/2; the ~200-line exact oracle is trusted", "DESIGN.md 4/C01"),
+         "small-scope hypothesis (<=6 vertices/path, <=3 paths, 5 embeddings, plus the two-row, empty-subject and large parametric families); witness lattice pitch 1/2; the ~200-line exact oracle is trusted", "DESIGN.md 4/C01"),
  "C02": ("bounded-exhaustive input-space exploration of the real engine (all 16 configurations x option settings) against structural and exact winding-number oracles",
          "Every closed input of the stated scopes x 16 (clip type, fill rule) x {preserveCollinear, reverseSolution} is executed; each solution is checked for >=3 vertices, no repeated cyclic neighbours, total winding in {0,1} ({-1,0} reversed) at every witness > 2 units from solution edges, reversal = same region with negated area, re-union region-equal. Complete enumeration of the scopes.",
          "small-scope hypothesis; winding defects confined to the 2-unit band of solution edges are allowed by the statement", "DESIGN.md 4/C02"),
@@ -24,11 +24,11 @@ CHECKS = {
          "Every exported entry point family (boolean 64/D, trees, engines, offsetting, rectangle clipping, Minkowski, unary path functions, helpers) is called on every member of explicitly enumerated degenerate-rich argument alphabets (all paths of P(3,0..4), nil/empty/degenerate clips, enum values incl. NoClip and out-of-range, empty/inverted rectangles, 13 deltas, all join/end types, precisions). A panic, a worker death, a call exceeding 60 s or a false Execute flag is a violation; only ErrPrecisionRange from D entry points outside [-8,8] is tolerated.",
          "paths of at most 4-5 points, 2 paths per set; huge deltas only with default arc tolerance", "DESIGN.md 4/C03"),
  "C04": ("bounded-exhaustive input-space exploration of BooleanOpPolyTree64/D against the flat result and an exact witness-lattice containment oracle",
-         "For every input of the scopes (incl. a nesting family of frame + 3 rectangles) x clip types x fill rules the tree is compared with the flat result (same polygons once each), IsHole with exact orientation, parent/child alternation, and, on the exact witness lattice, child-in-parent, sibling disjointness and innermost-parent (every container of a node is an ancestor).",
-         "small-scope hypothesis; containment undetermined when no witness is > 2 units from both boundaries", "DESIGN.md 4/C04"),
+         "For every input of the scopes (incl. nesting families: frame + 3 rectangles, 17-piece bars menu, bitmaps of touching cells, rectangles with a cancelling duplicate, regression inputs) x clip types x fill rules the tree is compared with the flat result (same polygons once each), IsHole with exact orientation, parent/child alternation, and, on the exact witness lattice, child-in-parent, sibling disjointness and innermost-parent (every container of a node is an ancestor).",
+         "small-scope hypothesis (known not to reach owner-bookkeeping defects that need dozens of touching pieces, see DESIGN 5); containment undetermined when no witness is > 2 units from both boundaries; known findings KF-05, KF-06", "DESIGN.md 4/C04"),
  "C05": ("bounded-exhaustive enumeration of simple polygons x offset configurations against a distance-field oracle",
          "Every simple polygon of the scopes (exact simplicity test, both orientations, holes, two groups) x 16 deltas x join types x miter limits x arc tolerances is offset by the real library and compared on a witness lattice with exact windings and float distances: inside/outside obligations for growth and shrink (complement), normal-band points, |delta|<0.5 identity, canonical result.",
-         "<= 5 vertices per polygon; float64 distances with 1e-6 guard", "DESIGN.md 4/C05"),
+         "<= 5 vertices per polygon; float64 distances with 1e-6 guard; large deltas judged on targeted ring probes, not a full lattice", "DESIGN.md 4/C05"),
  "C06": ("exhaustive enumeration of the concretised input language of the rectangle-clip location automaton (one lattice coordinate per location class) against an exact winding oracle",
          "All paths of P(R5,3..5[,6]), R6, a sheared lattice, two-path sets and 6 other rectangles are clipped by the real RectClipPaths64; result vertices within rect+1, exact winding equal to the input's inside (> 2 from boundary and input edges) and zero outside, inside paths unchanged, outside paths vanish.",
          "<= 5/6 vertices; fixed rectangles per scope", "DESIGN.md 4/C06"),
@@ -40,9 +40,9 @@ CHECKS = {
          "patterns <= 4 vertices, paths <= 4 points; float64 distances with guard", "DESIGN.md 4/C08"),
  "C09": ("bounded-exhaustive enumeration of open lines x clips (x closed subjects) x 16 configurations against exact winding classification of sampled line points",
          "Every open polyline of the scopes against every clip (and a three-party scope for Union) x clip types x fill rules through ExecuteOC (and ClipperD / tree execution on a stride); each segment sampled at 16 rational parameters, classified by exact winding when > 2 units from closed edges, compared with coverage by the open solution; open solution stays on the lines; closed solution unaffected.",
-         "lines <= 3 vertices, clips <= 4 vertices; float64 distances with guard", "DESIGN.md 4/C09"),
+         "lines <= 5 vertices, clips <= 4 vertices; float64 distances with guard", "DESIGN.md 4/C09"),
  "C10": ("bounded-exhaustive enumeration of polylines x end types x join types x deltas against a stroke distance oracle",
-         "Every polyline of 1-3(4) points over L(4) (duplicates, collinear runs, reversals) x 4 end types x 4 join types x 5 deltas is offset by the real library and checked on a witness lattice: normal bands inside, far points outside, square/round caps, butt ends, single-point squares/discs, canonical result. Violations caused by the recorded end-cap defect are attributed by a counterfactual build.",
+         "Every polyline of 1-3(4) points over L(4) (duplicates, collinear runs, reversals; 4-point lines over L(3), a 2^27-scaled copy and single points at huge centres) x 4 end types x 4 join types x 5 deltas is offset by the real library and checked on a witness lattice: normal bands inside, far points outside, square/round caps, butt ends, single-point squares/discs, canonical result. Violations caused by the recorded end-cap defect are attributed by a counterfactual build.",
          "<= 4 points; float64 distances; known finding KF-03", "DESIGN.md 4/C10"),
  "C11": ("exhaustive enumeration of the concretised input language of the line clipper (one lattice coordinate per location class) against a sampled coverage oracle",
          "All open polylines of P(R5,2..5), R6, sheared lattice, 6 other rectangles through the four line-clipping entry points: vertices in rect+1 and on the line, sampled interior points covered / exterior not, input order, one piece per crossing segment, every result segment along the input line.",
@@ -50,7 +50,7 @@ CHECKS = {
  "C12": ("explicit-state breadth-first search over operation histories of the real engine objects (state = structural dump hash, successor = replay + 1 operation), plus an exhaustive input-immutability sweep",
          "BFS over histories of AddPaths/Execute/ExecuteOC/ExecutePolyTree (all solution-argument aliasing modes) on Clipper64, ClipperD and ClipperOffset up to depth 5-7; every execute transition is compared with a fresh engine given the same paths; caller-owned inputs compared with pristine copies; every path-level call on P(3,0..4) with before/after deep comparison incl. spare capacity.",
          "history depth and AddPaths count bounded; states merged by a dump covering every reachable field incl. stale slice tails", "DESIGN.md 4/C12"),
- "C13": ("exhaustive enumeration of base inputs x a finite magnitude grid (4 translations, 8 scalings up to 2^56) with exact 128-bit winding oracles evaluated at transformed witnesses",
+ "C13": ("exhaustive enumeration of base inputs x a finite magnitude grid (4 translations, 8 scalings up to 2^56, 5 scalings centred on the origin) with exact 128-bit winding oracles evaluated at transformed witnesses",
          "Boolean operations, Area64, PointInPolygon, SimplifyPath64, RectClipPaths64 and InflatePaths64 are run on translated/scaled copies of every base input; the transformed solution is read with exact 128-bit arithmetic at the images of base witnesses and compared with the exact reference answer of the base input.",
          "finite magnitude grid; base inputs <= 5 vertices", "DESIGN.md 4/C13"),
  "C16": ("exhaustive enumeration of small paths x epsilons x closed/open with exact big-integer distance oracle and translation/scale/D-variant differential runs",
@@ -60,7 +60,7 @@ CHECKS = {
          "For every base input and applicable configuration every start rotation, repeated closing/any vertex, reversal law, subject/clip exchange, path permutation and lattice symmetry is executed and must give a region-equal result; 45 representative API calls are executed twice in-process and in two passes by different worker processes with identical outputs.",
          "small-scope hypothesis as C01", "DESIGN.md 4/C17"),
  "C18": ("stateless model checking of the implementation: cooperative scheduler + preemption-bounded DFS over all schedules of 2-3-thread harnesses at AST-derived scheduling points, complemented by a free-running race-detector pass of the same bodies",
-         "All schedules (preemption bound 2, <= 24/36 recorded points) of all ordered pairs (and triples) of a 14-call alphabet on shared read-only inputs are executed on an instrumented build (yield points derived from the current tree's AST: package-level variable accesses, exported function entry/exit, engine loops); every call must return its solo result; the same bodies run free in a -race build, any report/crash/mismatch is a violation.",
+         "All schedules (preemption bound 2, <= 24/36 recorded points) of all ordered pairs (and triples) of an 18-call alphabet on shared read-only inputs are executed on an instrumented build (yield points derived from the current tree's AST: package-level variable accesses, exported function entry/exit, engine loops); every call must return its solo result; the same bodies run free in a -race build, any report/crash/mismatch is a violation.",
          "scheduling points only where the instrumenter puts them; other interference left to the race pass", "DESIGN.md 4/C18"),
 }
 NOT_YET = "check not built yet in this round (planned in DESIGN.md section 4); no claim is made"
